@@ -24,6 +24,7 @@ def main():
     ap.add_argument('--out', default='seedmatrix.json')
     ap.add_argument('--part', default='', help='i/n: only the seeds whose index is i modulo n')
     ap.add_argument('--noclean', action='store_true')
+    ap.add_argument('--own', action='store_true', help='run only the check of the property each seed was written for')
     a = ap.parse_args()
     repo = a.repo
     if not repo or os.path.realpath(repo) == '/repo':
@@ -42,9 +43,9 @@ def main():
     subprocess.run(['./check', '--setup'], cwd=HERE, env=env)
     result = {}
 
-    def run_checks(label):
+    def run_checks(label, only=None):
         row = {}
-        for c in checks:
+        for c in (checks if only is None else [c for c in checks if c == only]):
             t = time.time()
             p = subprocess.run(['./check', c], cwd=HERE, env=env, stdout=subprocess.PIPE, stderr=subprocess.STDOUT, text=True)
             viol = [ln for ln in p.stdout.splitlines() if ln.startswith('VIOLATION')]
@@ -63,7 +64,7 @@ def main():
             result[name] = {'error': 'patch does not apply'}
             continue
         try:
-            result[name] = run_checks(name)
+            result[name] = run_checks(name, only=name.split('_')[0] if a.own else None)
         finally:
             subprocess.run(['git', '-C', repo, 'checkout', '--', '.'])
         json.dump(result, open(a.out, 'w'), indent=1)
